@@ -11,11 +11,9 @@
 package ibb // import "mellium.im/xmpp/ibb"
 
 import (
-	"bytes"
 	"context"
 	"encoding/base64"
 	"encoding/xml"
-	"errors"
 	"sync"
 
 	"mellium.im/xmlstream"
@@ -216,7 +214,6 @@ func handlePayload(h *Handler, errResp errorResponder, p dataPayload, e xmlstrea
 
 	conn.readLock.Lock()
 	defer conn.readLock.Unlock()
-	var inputErr base64.CorruptInputError
 	dataLen := base64.StdEncoding.DecodedLen(len(p.Data))
 	// If this would cause the buffer to grow beyond the maximum size, send back
 	// an error.
@@ -227,15 +224,19 @@ func handlePayload(h *Handler, errResp errorResponder, p dataPayload, e xmlstrea
 		}))
 		return err
 	}
-	b64Reader := base64.NewDecoder(base64.StdEncoding, bytes.NewReader(p.Data))
-	_, err := conn.readBuf.ReadFrom(b64Reader)
-	if errors.As(err, &inputErr) {
+	// Decode the whole packet before touching the buffer: a packet that is
+	// refused must not leave a decoded prefix behind, and data that is cut short
+	// is as undecodable as data containing a bad character.
+	decoded := make([]byte, dataLen)
+	n, err := base64.StdEncoding.Decode(decoded, p.Data)
+	if err != nil {
 		_, err := xmlstream.Copy(e, errResp.Error(stanza.Error{
 			Type:      stanza.Cancel,
 			Condition: stanza.BadRequest,
 		}))
 		return err
 	}
+	_, err = conn.readBuf.Write(decoded[:n])
 	if err != nil {
 		return err
 	}
